@@ -168,6 +168,41 @@ class LogList(list):
         return self._w(list.__delitem__, i)
 
 
+SHARED_DICTS = {}       # id(dict) -> (label, dict) for dicts held in attributes of shared objects (the reference keeps the id unique)
+
+
+def _patch_templatedict():
+    """TemplateDict keeps its attributes (guards, this, validate ...) in self._dict.  If that dict is one that a SHARED object holds,
+    the namespace's attribute reads / writes are shared accesses: log them (class-level patch, harness side only)"""
+    from DocumentTemplate._DocumentTemplate import TemplateDict
+    if getattr(TemplateDict, '_schedsmt_patched', False):
+        return
+    orig_set, orig_get = TemplateDict.__setattr__, TemplateDict.__getattribute__
+
+    def sa(self, name, value):
+        if name not in ('level', '_data', '_dict'):
+            d = object.__getattribute__(self, '__dict__').get('_dict')
+            ent = SHARED_DICTS.get(id(d)) if d is not None else None
+            if ent is not None and ent[1] is d:
+                return REC.hit('W', ent[0], 'item:%s' % name, token(value), lambda: orig_set(self, name, value))
+        return orig_set(self, name, value)
+
+    def ga(self, name):
+        if name not in ('level', '_data', '_dict') and not name.startswith('__'):
+            d = object.__getattribute__(self, '__dict__').get('_dict')
+            if d and name in d:
+                ent = SHARED_DICTS.get(id(d))
+                if ent is not None and ent[1] is d:
+                    return REC.hit('R', ent[0], 'item:%s' % name, None, lambda: orig_get(self, name))
+        return orig_get(self, name)
+    try:
+        TemplateDict.__setattr__ = sa
+        TemplateDict.__getattribute__ = ga
+        TemplateDict._schedsmt_patched = True
+    except (TypeError, AttributeError):
+        pass
+
+
 def instrument(obj, label):
     cls = type(obj)
     if cls.__name__.startswith('Obs_'):
@@ -195,15 +230,16 @@ def instrument(obj, label):
             r = REC.hit('R', label, name, None, act)
             if r is _MISSINGV:
                 raise AttributeError(name)
+            if type(r) is dict:
+                SHARED_DICTS[id(r)] = (label + '.' + name, r)
             return r
         return _c.__getattribute__(self, name)
 
     def sa(self, name, value, _c=cls):
         if type(value) is dict and not name.startswith('__'):
-            # a dict stored on a shared object at run time (a lazily built cache, a guards table): its item writes are events too
-            ld = LogDict(value)
-            ld._label = label + '.' + name
-            value = ld
+            # a dict stored on a shared object at run time (a lazily built cache, a guards table) keeps its identity; namespaces that
+            # adopt it as their attribute store (TemplateDict._dict) log their attribute accesses against it
+            SHARED_DICTS[id(value)] = (label + '.' + name, value)
         REC.hit('W', label, name, token(value), lambda: _c.__setattr__(self, name, value))
 
     try:
@@ -305,6 +341,8 @@ def shared_objects(template, cook_subs=True):
 
 
 def instrument_template(template, cooked):
+    SHARED_DICTS.clear()
+    _patch_templatedict()
     if cooked:
         template.cook()
     objs = shared_objects(template, cooked)
@@ -324,12 +362,24 @@ def instrument_template(template, cooked):
     return len(objs)
 
 
-def run_solo(make_template, inputs, cooked, call):
+def _warm(t, inputs, call):
+    """steady state: every thread body once, alone, unrecorded (lazily built shared structures exist afterwards)"""
+    REC.mode = 'off'
+    for ns in inputs.values():
+        try:
+            call(t, ns)
+        except Exception:            # noqa: B902
+            pass
+
+
+def run_solo(make_template, inputs, cooked, call, warm=False):
     """each thread body alone on a fresh scenario instance -> ({name: trace}, {name: result})"""
     traces, solo = {}, {}
     for name, ns in inputs.items():
         t = make_template()
         instrument_template(t, cooked)
+        if warm:
+            _warm(t, inputs, call)
         REC.tracked = set(inputs)
         REC.start_record()
         box = {}
@@ -446,11 +496,13 @@ def synthesize(traces, blocked, timeout_ms=60000, only_loc=None, final_differs=N
     return 'sat', order, hit[0], len(cands)
 
 
-def replay(make_template, inputs, cooked, call, order, template=None):
+def replay(make_template, inputs, cooked, call, order, template=None, warm=False):
     t = template
     if t is None:
         t = make_template()
         instrument_template(t, cooked)
+        if warm:
+            _warm(t, inputs, call)
     REC.tracked = set(inputs)
     REC.order = list(order)
     REC.pos = 0
@@ -535,14 +587,31 @@ def amplify(make_template, inputs, cooked, call, loc, rounds=260):
 
 
 def analyse(make_template, inputs, cooked, call, max_candidates=32):
-    """full E3 pipeline for one scenario -> result dict"""
+    """cold phase (fresh template: compile races, lazily built structures being created), then - if that is clean - the steady-state
+    phase (template rendered once by every thread body beforehand: structures that exist only after a first render are shared now)"""
+    r = analyse_phase(make_template, inputs, cooked, call, max_candidates, warm=False)
+    if r.get('verdict') != 'unsat' or not cooked:
+        return r
+    r2 = analyse_phase(make_template, inputs, cooked, call, max_candidates, warm=True)
+    if r2.get('verdict') == 'unsat':
+        r['message'] += '; steady state: ' + r2.get('message', '')
+        for k in ('queries', 'solver_s', 'candidates'):
+            r[k] = r.get(k, 0) + r2.get(k, 0)
+        r['benign'] = r.get('benign', []) + r2.get('benign', [])
+        return r
+    r2['warm'] = True
+    return r2
+
+
+def analyse_phase(make_template, inputs, cooked, call, max_candidates=32, warm=False):
+    """full E3 pipeline for one scenario and one phase -> result dict"""
     t0 = time.time()
-    traces, solo = run_solo(make_template, inputs, cooked, call)
+    traces, solo = run_solo(make_template, inputs, cooked, call, warm)
     # state OUTSIDE the template object (module-level caches, memoised helpers): every thread body runs alone on a FRESH template,
     # so its result must not depend on which other render happened earlier in this process
     rev = dict(reversed(list(inputs.items())))
-    _tr2, solo2 = run_solo(make_template, rev, cooked, call)
-    _tr3, solo3 = run_solo(make_template, inputs, cooked, call)
+    _tr2, solo2 = run_solo(make_template, rev, cooked, call, warm)
+    _tr3, solo3 = run_solo(make_template, inputs, cooked, call, warm)
     od = {k: (solo[k], solo2.get(k), solo3.get(k)) for k in solo if solo2.get(k) != solo[k] or solo3.get(k) != solo[k]}
     if od:
         return {'events': sum(len(t) for t in traces.values()), 'writes': 0, 'solo': {k: repr(v)[:80] for k, v in solo.items()}, 'queries': 0, 'solver_s': 0.0, 'benign': [],
@@ -572,7 +641,7 @@ def analyse(make_template, inputs, cooked, call, max_candidates=32):
             out.update(verdict='unknown', message='z3 answered %s' % r)
             break
         key, cond, rd, wr = hit
-        got = replay(make_template, inputs, cooked, call, order)
+        got = replay(make_template, inputs, cooked, call, order, warm=warm)
         differs = {k: (solo[k], got.get(k)) for k in solo if got.get(k) != solo[k]}
         desc = '%s reads %s.%s after %s wrote %r (solo value %r)' % (rd[0], rd[3], rd[4], wr[0], wr[5], rd[5])
         if differs:
